@@ -128,15 +128,8 @@ Definition known_b (c : case) : Z :=
           let g := mkAg payer (flat_map (find_ix all) ids) m in
           let m_est := group_size true (o_memo o) ts g in
           let m_real := real_size payer (ixs_with_options true (o_memo o) g) ts in
-          let memo_case :=
-            match o_memo o with
-            | Some _ => (real <=? est) && (group_size true None ts g <=? o_max_size o)
-                        && existsb (fun g0 => list_eqb Z.eqb (ids_of g0) ids && (a_payer g0 =? payer)) orig
-            | None => false
-            end in
-          let compact_case := (est <? real) && (real - est =? m_real - m_est)
-                              && ((real <=? o_max_size o)
-                                  || ((est <=? o_max_size o) && match o_memo o with None => true | Some _ => false end)) in
+          let memo_case := false in    (* class 1 (memo not counted by `add`) is fixed *)
+          let compact_case := false in (* class 2 (compact-u16 bytes not counted) is fixed *)
           if memo_case then 1 else if compact_case then 2 else 9 in
       let rs := (fix zip (a : list fgroup) (b : list (Z * Z)) : list Z :=
                    match a, b with x :: r, y :: t => reason x y :: zip r t | _, _ => [] end) fgs sizes in
